@@ -24,6 +24,7 @@ import (
 
 	simrt "github.com/centrifugal/centrifuge/internal/simrt"
 	"github.com/centrifugal/protocol"
+	"github.com/prometheus/client_golang/prometheus"
 	fdelta "github.com/shadowspore/fossil-delta"
 )
 
@@ -47,6 +48,14 @@ type w3Cfg struct {
 	DelayPm      int  `json:"pubsub_delay_pm"` // broker->node hand-over late (stream modes only)
 	SettleMs     int  `json:"settle_ms"`
 	Seq          bool `json:"sequential"` // fault-free sequential sanity scenario: writers first, then clients one by one
+	// lifecycle scenarios (C05 / C26, see zz_verif_w3_life_test.go)
+	Life        bool `json:"life,omitempty"`
+	SubFailPm   int  `json:"sub_fail_pm,omitempty"`   // MapBroker.Subscribe fails
+	SubDelayPm  int  `json:"sub_delay_pm,omitempty"`  // MapBroker.Subscribe is slow (50 ms / 6.5 s)
+	UnsubFailPm int  `json:"unsub_fail_pm,omitempty"` // MapBroker.Unsubscribe fails
+	PresDelayPm int  `json:"pres_delay_pm,omitempty"` // presence round trip (PresenceManager / presence map channel) is slow
+	TickMs      int  `json:"tick_ms,omitempty"`       // ClientPresenceUpdateInterval (0 = 1 s)
+	QueueMax    int  `json:"queue_max,omitempty"`     // ClientQueueMaxSize (0 = default)
 }
 
 type w3WOp struct {
@@ -72,6 +81,13 @@ type w3COp struct {
 	RaceAt  int    `json:"race_at,omitempty"`
 	RaceK   string `json:"race_k,omitempty"` // pub | rm | clear
 	RaceKey int    `json:"race_key,omitempty"`
+	// lifecycle scenarios: the connection (or its subscription) is ended by Cause
+	//   op "kill": now (When 0) or when the next presence round trip of this connection starts (When 1)
+	//   flow ops / unsub: KillAt = N>0: Cause becomes runnable KillUs after request N of the flow was handed to the server
+	Cause  string `json:"cause,omitempty"` // peer | disc | ndisc | nunsub | cunsub | werr | slow
+	When   int    `json:"when,omitempty"`
+	KillAt int    `json:"kill_at,omitempty"`
+	KillUs int    `json:"kill_us,omitempty"`
 }
 
 type w3Client struct {
@@ -81,6 +97,10 @@ type w3Client struct {
 	SF      int     `json:"sf,omitempty"` // server tags filter: 0 none, 1 s eq x, 2 s eq y
 	Refresh bool    `json:"refresh,omitempty"`
 	Ops     []w3COp `json:"ops"`
+	// lifecycle scenarios
+	User int    `json:"user,omitempty"` // 0: own user "u<idx>", k>0: shared user "s<k>"
+	Pres int    `json:"pres,omitempty"` // 1 EmitPresence | 2 MapClientPresenceChannel | 4 MapUserPresenceChannel
+	End  string `json:"end,omitempty"`  // how the connection is ended at the end of the run (default peer)
 }
 
 type w3Script struct {
@@ -88,6 +108,22 @@ type w3Script struct {
 	Pre     []w3WOp    `json:"pre"`
 	Writers [][]w3WOp  `json:"writers"`
 	Clients []w3Client `json:"clients"`
+}
+
+// StreamSize / StreamTTL 0 = not set by the application: ResolveAndValidateMapChannelOptions
+// derives the defaults (100 entries, 1 minute). The oracles use the effective values.
+func (c *w3Cfg) effStreamSize() int {
+	if c.StreamSize == 0 {
+		return 100
+	}
+	return c.StreamSize
+}
+
+func (c *w3Cfg) effStreamTTLMs() int {
+	if c.StreamTTLMs == 0 {
+		return 60000
+	}
+	return c.StreamTTLMs
 }
 
 func w3Key(i int) string { return "k" + strconv.Itoa(i) }
@@ -205,6 +241,7 @@ type w3World struct {
 	pubd    map[string]string               // payload -> key (every payload ever published)
 	changes int                             // number of changes handed over so far
 	rmBusy  int                             // explicit removes in flight (to tell TTL removals apart)
+	life    w3Life                          // connection registry, broker subscription record, gauges (C05 / C26)
 }
 
 // w3Broker is the real MemoryMapBroker; only the event handler it calls is wrapped.
@@ -221,6 +258,10 @@ func (b *w3Broker) RegisterEventHandler(h BrokerEventHandler) error {
 
 func (b *w3Broker) HandlePublication(ch string, pub *Publication, sp StreamPosition, delta bool, prev *Publication) error {
 	w := b.w
+	if ch != w3Channel {
+		// presence map channels of the lifecycle scenarios: not part of the change log
+		return b.node.HandlePublication(ch, pub, sp, delta, prev)
+	}
 	w.changes++
 	if pub.Offset > 0 {
 		m := w.log[sp.Epoch]
@@ -235,7 +276,7 @@ func (b *w3Broker) HandlePublication(ch string, pub *Publication, sp StreamPosit
 	if pub.Removed && w.rmBusy == 0 {
 		w.s.Fault("key_ttl_expiry")
 	}
-	if cfg.Mode != 1 && pub.Offset > uint64(cfg.StreamSize) {
+	if cfg.Mode != 1 && pub.Offset > uint64(cfg.effStreamSize()) {
 		w.s.Fault("stream_trim")
 	}
 	if cfg.Mode != 1 && pub.Offset > 0 {
@@ -260,8 +301,11 @@ func (b *w3Broker) HandleLeave(ch string, info *ClientInfo) error {
 	return b.node.HandleLeave(ch, info)
 }
 
-func (w *w3World) chanOpts() MapChannelOptions {
+func (w *w3World) chanOpts(ch string) MapChannelOptions {
 	cfg := w.sc.Cfg
+	if ch != w3Channel {
+		return w3PresenceChanOpts(ch)
+	}
 	o := MapChannelOptions{
 		Mode:                              MapMode(cfg.Mode),
 		MinPageSize:                       1,
@@ -286,13 +330,20 @@ func (w *w3World) chanOpts() MapChannelOptions {
 
 func (w *w3World) setup() error {
 	cfg := w.sc.Cfg
+	w.life.reg = prometheus.NewRegistry()
+	tick := time.Second
+	if cfg.TickMs > 0 {
+		tick = time.Duration(cfg.TickMs) * time.Millisecond
+	}
 	node, err := New(Config{
 		LogLevel:                        LogLevelNone,
-		ClientPresenceUpdateInterval:    time.Second,
+		ClientPresenceUpdateInterval:    tick,
 		ClientChannelPositionCheckDelay: time.Second,
 		UseSingleFlight:                 cfg.SingleFlight,
+		ClientQueueMaxSize:              cfg.QueueMax,
+		Metrics:                         MetricsConfig{RegistererGatherer: w.life.reg},
 		Map: MapConfig{
-			GetMapChannelOptions: func(string) MapChannelOptions { return w.chanOpts() },
+			GetMapChannelOptions: func(ch string) MapChannelOptions { return w.chanOpts(ch) },
 		},
 	})
 	if err != nil {
@@ -308,6 +359,9 @@ func (w *w3World) setup() error {
 	w.broker = &w3Broker{MemoryMapBroker: inner, w: w}
 	node.SetMapBroker(w.broker)
 	w.node = node
+	if cfg.Life {
+		node.SetPresenceManager(&w3Presence{w: w, inner: node.presenceManager})
+	}
 	node.OnConnecting(func(ctx context.Context, e ConnectEvent) (ConnectReply, error) {
 		return ConnectReply{Credentials: &Credentials{UserID: e.Token}, ClientSideRefresh: true}, nil
 	})
@@ -320,6 +374,15 @@ func (w *w3World) setup() error {
 			}
 			if cl.spec.Refresh {
 				opts.ExpireAt = time.Now().Unix() + 3600
+			}
+			if cl.spec.Pres&1 != 0 {
+				opts.EmitPresence = true
+			}
+			if cl.spec.Pres&2 != 0 {
+				opts.MapClientPresenceChannel = w3PresClients
+			}
+			if cl.spec.Pres&4 != 0 {
+				opts.MapUserPresenceChannel = w3PresUsers
 			}
 			cb(SubscribeReply{Options: opts, ClientSideRefresh: cl.spec.Refresh}, nil)
 		})
@@ -384,9 +447,11 @@ func (w *w3World) runWriter(ops []w3WOp) {
 // ---------------------------------------------------------------- transport
 
 type w3Transport struct {
-	cl     *w3Cl
-	proto  ProtocolType
-	closed bool
+	cl         *w3Cl
+	proto      ProtocolType
+	closed     bool
+	failWrites bool          // lifecycle: the next write fails (transport error)
+	stall      time.Duration // lifecycle: every write takes this long (slow consumer)
 }
 
 func (t *w3Transport) Name() string                     { return "sim" }
@@ -404,6 +469,15 @@ func (t *w3Transport) WriteMany(datas ...[]byte) error {
 	if t.closed {
 		return io.ErrClosedPipe
 	}
+	if t.failWrites {
+		return io.ErrShortWrite
+	}
+	if t.stall > 0 {
+		t.cl.w.s.Sleep(t.stall)
+		if t.closed {
+			return io.ErrClosedPipe
+		}
+	}
 	for _, d := range datas {
 		if t.cl.tr == t {
 			t.cl.onData(d)
@@ -417,6 +491,7 @@ func (t *w3Transport) Close(d Disconnect) error {
 	}
 	t.closed = true
 	cl := t.cl
+	cl.w.lifeTransportClosed(t, d)
 	if cl.tr != t {
 		return nil
 	}
@@ -471,6 +546,7 @@ type w3Cl struct {
 	recv          []w3Recv
 	curPath       string
 	unexpected    int
+	conn          *w3Conn // lifecycle: registry entry of the current connection
 }
 
 func (w *w3World) newClient(idx int, spec w3Client) *w3Cl {
@@ -501,13 +577,15 @@ func (cl *w3Cl) connect() bool {
 	}
 	cl.tr = &w3Transport{cl: cl, proto: cl.proto}
 	cl.connClosed = false
+	cl.w.lifeBaseline()
 	c, closeFn, err := NewClient(context.Background(), cl.w.node, cl.tr)
 	if err != nil {
 		s.Violate(cl.w.prop, "harness", "NewClient failed", "%v", err)
 		return false
 	}
 	cl.client, cl.closeFn = c, closeFn
-	rep := cl.roundTrip(&protocol.Command{Id: cl.id(), Connect: &protocol.ConnectRequest{Token: "u" + strconv.Itoa(cl.idx)}})
+	cl.w.lifeRegister(cl, c, closeFn)
+	rep := cl.roundTrip(&protocol.Command{Id: cl.id(), Connect: &protocol.ConnectRequest{Token: cl.userName()}})
 	if rep == nil || rep.Connect == nil {
 		return false
 	}
@@ -775,6 +853,7 @@ func (cl *w3Cl) onSubscribeResult(r *protocol.SubscribeResult) {
 		cl.havePos = r.Recoverable
 		cl.live = true
 		cl.told = 0
+		cl.w.lifeWentLive(cl)
 		if r.Delta != (cl.spec.Delta && cl.w.sc.Cfg.UseDelta) {
 			s.Violate("C14", "negotiation", "delta flag of the reply differs from the negotiation", "client %d asked %v allowed %v got %v", cl.idx, cl.spec.Delta, cl.w.sc.Cfg.UseDelta, r.Delta)
 		}
@@ -827,10 +906,13 @@ func (cl *w3Cl) flowFail(rep *protocol.Reply, what string) {
 		return
 	}
 	code := w3ErrCode(rep)
-	switch code {
-	case ErrorUnrecoverablePosition.Code:
+	switch {
+	case code == ErrorUnrecoverablePosition.Code:
 		cl.told = code
 		s.Probe("told_error_unrecoverable")
+	case cl.w.sc.Cfg.Life:
+		// injected broker failures, a server-side unsubscribe between two requests of the flow
+		s.Probe("life_flow_error")
 	default:
 		cl.unexpected++
 		s.Violate("C22", "unexpected-subscribe-error", fmt.Sprintf("subscribe flow ended with error %d", code),
@@ -898,6 +980,7 @@ func (cl *w3Cl) syncFresh(op w3COp) {
 			req.Cursor, req.Offset, req.Epoch = cursor, frozen, epoch
 		}
 		cl.race(op, n)
+		cl.killAt(op, n)
 		n++
 		rep := cl.roundTrip(&protocol.Command{Id: cl.id(), Subscribe: req})
 		if rep == nil || rep.Error != nil || rep.Subscribe == nil {
@@ -966,6 +1049,7 @@ func (cl *w3Cl) streamPhase(op w3COp, n int, offset uint64, epoch string, slimit
 			req.Recover = true
 		}
 		cl.race(op, n)
+		cl.killAt(op, n)
 		n++
 		rep := cl.roundTrip(&protocol.Command{Id: cl.id(), Subscribe: req})
 		if rep == nil || rep.Error != nil || rep.Subscribe == nil {
@@ -1043,6 +1127,7 @@ func (cl *w3Cl) recoverFlow(op w3COp) {
 	req.Recover = true
 	req.Offset, req.Epoch = cl.offset, cl.epoch
 	cl.race(op, 0)
+	cl.killAt(op, 0)
 	rep := cl.roundTrip(&protocol.Command{Id: cl.id(), Subscribe: req})
 	if rep == nil || rep.Error != nil || rep.Subscribe == nil {
 		cl.flowFail(rep, "recovery join")
@@ -1057,15 +1142,20 @@ func (cl *w3Cl) recoverFlow(op w3COp) {
 	cl.endFlowLive(c0)
 }
 
-func (cl *w3Cl) unsubscribe() {
+func (cl *w3Cl) unsubscribe() { cl.unsubscribeOp(w3COp{}) }
+
+func (cl *w3Cl) unsubscribeOp(op w3COp) {
 	// the client decides to leave: from now on pushes are ignored, replica and position stay a consistent pair
 	cl.live = false
 	cl.inFlow = false
 	if !cl.connected {
 		return
 	}
+	cl.killAt(op, 0)
 	rep := cl.roundTrip(&protocol.Command{Id: cl.id(), Unsubscribe: &protocol.UnsubscribeRequest{Channel: w3Channel}})
-	if rep != nil && rep.Error != nil {
+	if rep != nil && rep.Error != nil && cl.w.sc.Cfg.Life {
+		cl.w.s.Probe("life_unsubscribe_error")
+	} else if rep != nil && rep.Error != nil {
 		cl.w.s.Violate("C22", "harness", "unsubscribe failed", "client %d error %d", cl.idx, rep.Error.Code)
 	}
 }
@@ -1126,9 +1216,11 @@ func (cl *w3Cl) runOp(op w3COp) {
 	case "recover":
 		cl.recoverFlow(op)
 	case "unsub":
-		if cl.live || cl.inFlow {
-			cl.unsubscribe()
+		if cl.live || cl.inFlow || (cl.w.sc.Cfg.Life && cl.connected) {
+			cl.unsubscribeOp(op)
 		}
+	case "kill":
+		cl.killOp(op)
 	case "drop":
 		cl.drop()
 	case "refresh":
@@ -1141,6 +1233,7 @@ func (cl *w3Cl) runOp(op w3COp) {
 func w3Run(s *simrt.Sim, script any, prop string) {
 	sc := script.(*w3Script)
 	w := &w3World{s: s, sc: sc, prop: prop, log: map[string]map[uint64]*w3Change{}, pubd: map[string]string{}}
+	w.lifeInit()
 	if err := w.setup(); err != nil {
 		s.Violate(prop, "harness", "node setup failed", "%v", err)
 		return
@@ -1186,6 +1279,10 @@ func w3Run(s *simrt.Sim, script any, prop string) {
 	if settle <= 0 {
 		settle = 8 * time.Second
 	}
+	if sc.Cfg.Life {
+		w.lifeEnd(settle)
+		return
+	}
 	s.Sleep(settle + 137*time.Millisecond)
 	// a client that was told to re-sync (or simply is not subscribed) does so now, at rest
 	for _, cl := range w.clients {
@@ -1214,6 +1311,8 @@ func w3Run(s *simrt.Sim, script any, prop string) {
 	for _, cl := range w.clients {
 		cl.drop()
 	}
+	// C05 / C26 as extra oracles of every W3 run: nothing of the ended connections is left
+	w.lifeCheckEnd()
 	s.Sleep(500 * time.Millisecond)
 	ctx, cancel := context.WithTimeout(context.Background(), 10*time.Second)
 	_ = w.node.Shutdown(ctx)
@@ -1402,9 +1501,11 @@ func (w *w3World) gap(cl *w3Cl, f *w3Flow) (string, []uint64) {
 	if f.Oldest != 0 && missing[len(missing)-1] >= f.Oldest {
 		return "skipped changes still retained in the stream", missing
 	}
-	// a stream can only have expired in scenarios with a short StreamTTL (the long one is an hour)
+	// a stream can only have expired when its (effective) StreamTTL is shorter than the time
+	// the run has lasted: never with the 1 h TTL, with the library default of 1 minute only in
+	// very long runs
 	exp := "stream cannot have expired"
-	if w.sc.Cfg.StreamTTLMs < 60000 {
+	if time.Duration(w.sc.Cfg.effStreamTTLMs())*time.Millisecond <= w.s.Now()+2*time.Second {
 		exp = "stream may have expired"
 	}
 	if f.From == 0 {
@@ -1476,6 +1577,9 @@ func w3GenDelays(c *simrt.Choice, n int) []int {
 }
 
 func w3Gen(c *simrt.Choice, prop, tier string) any {
+	if prop == "C05" || prop == "C26" {
+		return w3GenLife(c, prop, tier)
+	}
 	sc := &w3Script{}
 	cfg := &sc.Cfg
 	cfg.Mode = []int{2, 3, 1}[c.Pick(5, 3, 2)]
@@ -1484,11 +1588,13 @@ func w3Gen(c *simrt.Choice, prop, tier string) any {
 	}
 	cfg.Ordered = c.Intn(3) == 0
 	cfg.KeyTTLMs = []int{60000, 2500, 1500}[c.Pick(3, 2, 1)]
-	cfg.StreamSize = []int{100, 2, 3, 4, 8}[c.Intn(5)]
-	cfg.StreamTTLMs = []int{3600000, 2000, 1000}[c.Pick(3, 2, 1)]
+	// 0 = the application leaves the option unset and the library derives the default
+	// (StreamSize 100, StreamTTL 1 min; MetaTTL is left to the library unless set below)
+	cfg.StreamSize = []int{100, 2, 3, 4, 8, 0}[c.Pick(2, 2, 2, 2, 2, 3)]
+	cfg.StreamTTLMs = []int{3600000, 2000, 1000, 0}[c.Pick(3, 2, 1, 2)]
 	if cfg.Mode == 2 && c.Intn(4) == 0 {
 		// explicit small MetaTTL: must be >= StreamTTL and >= KeyTTL
-		m := cfg.StreamTTLMs
+		m := cfg.effStreamTTLMs()
 		if cfg.KeyTTLMs > m {
 			m = cfg.KeyTTLMs
 		}
@@ -1663,6 +1769,7 @@ func w3Shrinks(script any) []any {
 		c.Writers = append(c.Writers[:i], c.Writers[i+1:]...)
 		out = append(out, c)
 	}
+	out = append(out, w3LifeShrinks(sc, clone)...)
 	if len(sc.Clients) > 1 {
 		for i := range sc.Clients {
 			c := clone()
@@ -1753,6 +1860,14 @@ func init() {
 				return r.Probes["filter_checked"] > 0 && r.Probes["excluded_change_while_subscribed"] > 0
 			case "C14":
 				return r.Probes["delta_applied"] > 0
+			case "C05":
+				// a closed connection was examined that had been ended while it held a map
+				// subscription or a reservation of one
+				return r.Probes["nontrivial:C05"] > 0
+			case "C26":
+				// broker subscription compared with local interest after the node both
+				// subscribed to and unsubscribed from the channel in the map broker
+				return r.Probes["nontrivial:C26"] > 0
 			}
 			return r.Probes["compared"] > 0 && r.Probes["change_during_flow"] > 0
 		},
@@ -1760,4 +1875,6 @@ func init() {
 	simrt.Claim("C22", "w3", 10)
 	simrt.Claim("C16", "w3", 10)
 	simrt.Claim("C14", "w3", 10)
+	simrt.Claim("C05", "w3", 4)
+	simrt.Claim("C26", "w3", 4)
 }
